@@ -221,3 +221,7 @@ func VerifWriteTLS13PaddedRecord(c *Conn, data []byte, pad int) error {
 	_, err := c.write(rec)
 	return err
 }
+
+// VerifSetSessionSuite changes the cipher suite recorded in a SessionState (a server that resumes a
+// session under another suite than the one it was established with).
+func VerifSetSessionSuite(ss *SessionState, suite uint16) { ss.cipherSuite = suite }
